@@ -154,9 +154,59 @@ Scan3(l, i, out, stack) ==
 Inline3(l) == Scan3(l, 1, <<>>, <<>>)
 EncChar(c) == IF c = "[" THEN "%5B" ELSE IF c = "]" THEN "%5D" ELSE c
 
+(* ---- raw HTML: open and closing tags (spec section 6.6) ------------------------------------------------------------
+   An open tag is `<`, a tag name, zero or more attributes, optional white space, an optional `/`, and `>`.  An attribute is
+   white space, an attribute name, and optionally a value specification: optional white space, `=`, optional white space and
+   an unquoted value (non-empty, none of space " ' = < > `), a single-quoted value or a double-quoted value (both possibly
+   EMPTY).  A closing tag is `</`, a tag name, optional white space, `>`.  What is not a tag is text (`<` is escaped). *)
+IsLetter(c) == c \in {"a", "b", "c", "d", "x", "y"}
+IsDigit4(c) == c \in {"0", "1", "2"}
+RECURSIVE NameEnd(_, _)          \* last index of a run of name characters starting at i (i itself is already accepted)
+NameEnd(l, i) == IF i < Len(l) /\ (IsLetter(l[i + 1]) \/ IsDigit4(l[i + 1]) \/ l[i + 1] \in {"-", "_", ".", ":"}) THEN NameEnd(l, i + 1) ELSE i
+RECURSIVE TagNameEnd4(_, _)
+TagNameEnd4(l, i) == IF i < Len(l) /\ (IsLetter(l[i + 1]) \/ IsDigit4(l[i + 1]) \/ l[i + 1] = "-") THEN TagNameEnd4(l, i + 1) ELSE i
+RECURSIVE SkipWs4(_, _)
+SkipWs4(l, i) == IF i <= Len(l) /\ l[i] = " " THEN SkipWs4(l, i + 1) ELSE i
+At(l, i) == IF i >= 1 /\ i <= Len(l) THEN l[i] ELSE ""
+RECURSIVE UnquotedEnd(_, _)      \* first index at or after i that cannot belong to an unquoted value
+UnquotedEnd(l, i) == IF i <= Len(l) /\ l[i] \notin {" ", "\"", "'", "=", "<", ">", "`"} THEN UnquotedEnd(l, i + 1) ELSE i
+RECURSIVE FindCh(_, _, _)
+FindCh(l, i, ch) == IF i > Len(l) THEN 0 ELSE IF l[i] = ch THEN i ELSE FindCh(l, i + 1, ch)
+(* position just after the attributes that start at i (where the optional white space, `/` and `>` are expected), or 0 *)
+RECURSIVE AfterAttrs(_, _)
+AfterAttrs(l, i) ==
+  LET j == SkipWs4(l, i) IN
+  IF j = i \/ ~(IsLetter(At(l, j)) \/ At(l, j) \in {"_", ":"}) THEN i            \* no (further) attribute
+  ELSE LET k == NameEnd(l, j) + 1                                                  \* first index after the attribute name
+           m == SkipWs4(l, k) IN
+       IF At(l, m) # "=" THEN AfterAttrs(l, k)                                      \* attribute without value
+       ELSE LET v == SkipWs4(l, m + 1) IN
+            IF At(l, v) \in {"\"", "'"} THEN
+                 LET c == FindCh(l, v + 1, l[v]) IN IF c = 0 THEN 0 ELSE LET r == AfterAttrs(l, c + 1) IN r
+            ELSE LET u == UnquotedEnd(l, v) IN IF u = v THEN 0 ELSE AfterAttrs(l, u)
+OpenTagEnd(l, i) ==              \* index of the closing `>` of an open tag starting at i, or 0
+  IF At(l, i) # "<" \/ ~IsLetter(At(l, i + 1)) THEN 0
+  ELSE LET a == AfterAttrs(l, TagNameEnd4(l, i + 1) + 1) IN
+       IF a = 0 THEN 0
+       ELSE LET b == SkipWs4(l, a)
+                c == IF At(l, b) = "/" THEN b + 1 ELSE b IN
+            IF At(l, c) = ">" THEN c ELSE 0
+ClosingTagEnd(l, i) ==
+  IF At(l, i) # "<" \/ At(l, i + 1) # "/" \/ ~IsLetter(At(l, i + 2)) THEN 0
+  ELSE LET b == SkipWs4(l, TagNameEnd4(l, i + 2) + 1) IN IF At(l, b) = ">" THEN b ELSE 0
+EscChar(c) == IF c = "<" THEN "&lt;" ELSE IF c = ">" THEN "&gt;" ELSE IF c = "\"" THEN "&quot;" ELSE IF c = "&" THEN "&amp;" ELSE c
+RECURSIVE Scan4(_, _)
+Scan4(l, i) ==
+  IF i > Len(l) THEN <<>>
+  ELSE LET e == IF OpenTagEnd(l, i) # 0 THEN OpenTagEnd(l, i) ELSE ClosingTagEnd(l, i) IN
+       IF e # 0 THEN <<[TextNode(SubSeq(l, i, e)) EXCEPT !.t = "raw"]>> \o Scan4(l, e + 1)
+       ELSE <<TextNode(<<EscChar(l[i])>>)>> \o Scan4(l, i + 1)
+Inline4(l) == Scan4(l, 1)
+
 Piece(nd) ==
   CASE nd.t = "text" -> nd.s
     [] nd.t = "code" -> <<"<code>">> \o nd.s \o <<"</code>">>
+    [] nd.t = "raw" -> nd.s
     [] nd.t = "delim" -> Repeat(nd.ch, nd.n)
     [] nd.t = "open" /\ nd.tag = "a" -> <<"<a href=\"">> \o [k \in 1..Len(nd.s) |-> EncChar(nd.s[k])] \o <<"\">">>
     [] nd.t = "close" /\ nd.tag = "a" -> <<"</a>">>
